@@ -160,6 +160,10 @@ func effectClasses(eff []string) string {
 
 func main() {
 	r := ev.Start("C45", ev.Exploration)
+	fatal := func(format string, a ...any) {
+		sw.Cleanup()
+		r.Fatal(format, a...)
+	}
 	var mu sync.Mutex
 	classes := map[string]int{}
 	controls := map[string]string{}
@@ -171,11 +175,11 @@ func main() {
 		r.Eval(1)
 		ctl, err := run(c, false)
 		if err != nil {
-			r.Fatal("%s (control): %v", c, err)
+			fatal("%s (control): %v", c, err)
 		}
 		got, err := run(c, true)
 		if err != nil {
-			r.Fatal("%s: %v", c, err)
+			fatal("%s: %v", c, err)
 		}
 		desc := fmt.Sprintf("%s: maintenance ON -> status=%s %q effects=%v treeDiff=%v bodyBytes=%d; maintenance OFF -> status=%s effects=%v",
 			c, got.Status, got.Detail, got.Effects, got.TreeDiff, got.BodySize, ctl.Status, effectClasses(ctl.Effects))
@@ -227,7 +231,7 @@ func main() {
 		if !unimplemented {
 			// status 1 = INCOMPLETE: the local part succeeded, the other container node is unreachable (no network)
 			if c.LocalIn && c.Shape != "maintenance-starts-before-chunk" && ctl.Status != "OK" && ctl.Status != "status:1" {
-				r.Fatal("%s: control run (maintenance off, node in container) is not OK: %s %q", c, ctl.Status, ctl.Detail)
+				fatal("%s: control run (maintenance off, node in container) is not OK: %s %q", c, ctl.Status, ctl.Detail)
 			}
 			if len(ctl.Effects) == 0 {
 				// e.g. a local-only PUT/DELETE on a node outside the container is refused before any effect
@@ -252,12 +256,12 @@ func main() {
 		for _, maint := range []bool{false, true} {
 			w, err := sw.New(sw.Config{BasicACL: sw.AllowAllACL(), LocalInContainer: true, Maintenance: maint, ACLSeesLocalHeaders: true})
 			if err != nil {
-				r.Fatal("%v", err)
+				fatal("%v", err)
 			}
 			req, _ := w.ReplicateRequest(sw.RemoteA)
 			out, herr := sw.Invoke(w.Srv, sw.ObjectServiceIface, method, []any{req})
 			if herr != nil {
-				r.Fatal("%v", herr)
+				fatal("%v", herr)
 			}
 			st := "grpc-error"
 			if out.Err == nil && len(out.Messages) == 1 {
@@ -268,7 +272,7 @@ func main() {
 			w.Close()
 		}
 		if res[false] != "code=0  stored=true" {
-			r.Fatal("replicate control (maintenance off) not accepted: %s", res[false])
+			fatal("replicate control (maintenance off) not accepted: %s", res[false])
 		}
 		if res[true] != res[false] {
 			r.Violation("non-client-op-refused-under-maintenance:"+method,
@@ -289,6 +293,7 @@ func main() {
 		} else {
 			check(c)
 		}
+		sw.Cleanup()
 		r.Finish()
 	}
 
@@ -330,7 +335,7 @@ func main() {
 
 	for _, m := range methods {
 		if !notClientOps[m] && !removed[m] && perMethod[m] == 0 {
-			r.Fatal("no case of method %s has a control run (maintenance off) with a storage/network effect: the harness cannot observe this operation (new RPC needs a request builder in worlds/svcworld?)", m)
+			fatal("no case of method %s has a control run (maintenance off) with a storage/network effect: the harness cannot observe this operation (new RPC needs a request builder in worlds/svcworld?)", m)
 		}
 	}
 	var rm []string
@@ -353,5 +358,6 @@ func main() {
 		"RPCs that answer gRPC Unimplemented with and without maintenance (removed from the protocol) are not client operations of this program",
 		"static dominance of the maintenance check over effects in the program text is not decided; what is decided is the dynamic product above over the actual method set")
 	r.Exhaustive(true)
+	sw.Cleanup()
 	r.Finish()
 }
